@@ -59,6 +59,19 @@ def run(ctx, pid):
         c, callees = K.ffill_contract()
         ex, obs = add_to_ctx(ctx, c, callees)
         n += len(obs)
+        c, callees, argsort_model = K.ffill_unsorted_contract()
+        orig0 = P.Prims.register_defaults
+
+        def reg0(self, orig0=orig0):
+            orig0(self)
+            self.register("numpy.argsort", argsort_model)
+
+        P.Prims.register_defaults = reg0
+        try:
+            ex, obs = add_to_ctx(ctx, c, callees)
+        finally:
+            P.Prims.register_defaults = orig0
+        n += len(obs)
     c, callees, models = S.dask_groupby_scan_contract()
     c.prefix = pid + c.prefix[3:]
     orig = P.Prims.register_defaults
@@ -79,4 +92,4 @@ def run(ctx, pid):
     return (f"scan_binary_op (both modes, right operand a reduced or a scanned block) and concatenate: {n} obligations "
             "(result = right block combined with the carried value of its own group only; carried state = last valid value per code of left ++ result; "
             "result handed on iff the right operand is a scanned block); "
-            "glue: _zip / chunk_scan / grouped_reduce / _finalize_scan field and argument wiring, dask_groupby_scan protocol (codes first, blueprint handed to all three callables, blelloch prefix over the zipped blocks); the forward-fill kernel aggregate_flox.ffill on sorted codes (running-maximum source index: in range, valid or a run start, in the same run, everything after it masked; four induction lemmas) meets the grouped forward-fill specification that scan_binary_op assumes of it.")
+            "glue: _zip / chunk_scan / grouped_reduce / _finalize_scan field and argument wiring, dask_groupby_scan protocol (codes first, blueprint handed to all three callables, blelloch prefix over the zipped blocks); the forward-fill kernel aggregate_flox.ffill, for sorted codes and for codes in any order (running-maximum source index: in range, valid or a run start, in the same run, everything after it masked; stable permutation pairwise order-preserving; argsort of the permutation is its inverse; eleven induction lemmas, permutation facts hidden while the sorted kernel is treated), meets the grouped forward-fill specification that scan_binary_op assumes of it.")
